@@ -46,6 +46,11 @@ class _Rewrite(ast.NodeTransformer):
                 name = "_old%d" % len(self.olds)
                 self.olds.append((name, n.args[0]))
                 return ast.Name(id=name, ctx=ast.Load())
+            if n.func.id == "oldlist" and len(n.args) == 1:
+                # oldlist(e): snapshot of the entry contents of the list e  ==  old(list(e))
+                name = "_old%d" % len(self.olds)
+                self.olds.append((name, ast.Call(func=ast.Name(id="list", ctx=ast.Load()), args=[n.args[0]], keywords=[])))
+                return ast.Name(id=name, ctx=ast.Load())
             if n.func.id in ("forall", "exists"):
                 raise NotEvaluable("quantifier")
         return n
@@ -280,6 +285,11 @@ class NativeRunner:
                 noteval += 1          # clause mentions ghost state that has no native counterpart
             except Exception as ex:
                 fails.append("%s  (evaluating the clause raised %r)" % (cl.text, ex))
+        # optional native-only conformance check of the harness: replay=dict(check=fn(env, nr, outcome, result, exc))
+        # returns a list of messages, each reported like a failed clause (never consulted when a clause is singled out)
+        if only_clause is None and isinstance(self.spec, dict) and self.spec.get("check"):
+            for msg in self.spec["check"](env, self, outcome, result, exc) or []:
+                fails.append(msg)
         info = {"inputs": shown, "outcome": outcome, "result": _show_val(result), "noteval": noteval}
         if fails:
             info["failed_clauses"] = fails
